@@ -16,7 +16,7 @@ use std::str::FromStr;
 // ------------------------------------------------------------------------------------------ C29
 
 const C29_MENU: &[&str] = &[
-    "X 0", "X 1", "X 2", "H 3", "CNOT 0 1", "CNOT 1 2", "CZ 2 3", "CZ 0 3", "CNOT 1 0", "CZ 0 2", "CCNOT 0 1 2", "CCNOT 1 2 3", "MEASURE 0 ro", "MEASURE 2 ro", "MEASURE 3 ro", "MOVE ro 1", "RX(ro) 1", "CNOT 3 1", "MEASURE 1 ro", "NOP",
+    "X 0", "X 1", "X 2", "H 3", "CNOT 0 1", "CNOT 1 2", "CZ 2 3", "CZ 0 3", "CNOT 1 0", "CZ 0 2", "CCNOT 0 1 2", "CCNOT 1 2 3", "MEASURE 0 ro", "MEASURE 2 ro", "MEASURE 3 ro", "MOVE ro 1", "RX(ro) 1", "CNOT 3 1", "MEASURE 1 ro", "NOP", "CONTROLLED X 2 3", "DAGGER H 0", "MEASURE 1", "FORKED RX(0.5, ro) 3 2",
 ];
 
 fn c29_check(seq: &[usize], parsed: &[Instruction]) -> Vec<(String, String)> {
@@ -77,7 +77,7 @@ pub static C29: PropDef = PropDef {
     id: "C29",
     level: "exploration",
     engine: "sweep",
-    rule: "every sequence of length <= 4 (thorough 6) over a 20-item menu on 4 qubits (1-qubit gates, 2-qubit gates on 7 ordered pairs, two 3-qubit gates, MEASURE on each qubit, a classical instruction, a parameterised gate reading memory, NOP) x thresholds k = 0..4: QubitGraph::gate_depth(k) vs a longest-chain dynamic program. non-trivial = sequence with at least two instructions sharing a qubit",
+    rule: "every sequence of length <= 4 (thorough 6) over a 24-item menu on 4 qubits (1-qubit gates, 2-qubit gates on 7 ordered pairs, two 3-qubit gates, MEASURE on each qubit and one without target, a classical instruction, a parameterised gate reading memory, NOP, three modified gates: CONTROLLED X on two qubits, DAGGER H, FORKED RX with two parameters on two qubits) x thresholds k = 0..4: QubitGraph::gate_depth(k) vs a longest-chain dynamic program. non-trivial = sequence with at least two instructions sharing a qubit",
     assumptions: &["reference: depth[i] = [gate on >= k qubits] + max depth over the previous instruction on each of its qubits; no gate repeats a qubit"],
     run: |ctx| {
         let parsed: Vec<Instruction> = C29_MENU.iter().map(|s| Instruction::from_str(s).unwrap()).collect();
